@@ -536,6 +536,42 @@ def check(model: Model, run: Run) -> None:
     if n8 < 15:
         run.cannot('only %d try/except around conversions found in the configuration parsers' % n8)
 
+    # ------------------------------------------------------------------ R9 what one definition leaves in the tokeniser does not decide the next
+    run.rule(
+        'C18.R9',
+        'the verdict on a definition does not depend on the one parsed before it: state the parsers keep on the shared Tokeniser '
+        '(the family of the last static prefix) and that the flow parser reads is reset when a flow route starts (or by '
+        'Tokeniser.clear()) - otherwise `protocol tcp` is refused as "IPv6-only" after an IPv6 static route',
+        floor=1,
+    )
+    tk = model.classes.get('exabgp.configuration.core.parser.Tokeniser')
+    if tk is None or '__init__' not in tk.methods:
+        run.cannot('Tokeniser class not found')
+    else:
+        state = sorted({t.attr for n in walk_no_nested(tk.methods['__init__'].node) if isinstance(n, (ast.Assign, ast.AnnAssign)) for t in (n.targets if isinstance(n, ast.Assign) else [n.target]) if isinstance(t, ast.Attribute) and dotted(t.value) == 'self'})
+        cleared = set()
+        if 'clear' in tk.methods:
+            cleared = {t.attr for n in walk_no_nested(tk.methods['clear'].node) if isinstance(n, ast.Assign) for t in n.targets if isinstance(t, ast.Attribute) and dotted(t.value) == 'self'}
+        n9 = 0
+        for attr in state:
+            writers = [f for f in model.funcs.values() if f.module.rel.startswith('exabgp/configuration/') and f.cls is not tk and any(isinstance(a, ast.Assign) and any(isinstance(t, ast.Attribute) and t.attr == attr and isinstance(t.value, (ast.Name, ast.Attribute)) and 'tokeniser' in (dotted(t.value) or '') for t in a.targets) for a in walk_no_nested(f.node))]
+            readers = [f for f in model.funcs.values() if f.module.rel.startswith('exabgp/configuration/flow/') and any(isinstance(a, ast.Attribute) and isinstance(a.ctx, ast.Load) and a.attr == attr and 'tokeniser' in (dotted(a.value) or '') for a in walk_no_nested(f.node))]
+            static_writers = [f for f in writers if not f.module.rel.startswith('exabgp/configuration/flow/')]
+            if not (static_writers and readers):
+                continue
+            n9 += 1
+            flow_resets = [f for f in writers if f.module.rel.startswith('exabgp/configuration/flow/') and f.name in ('pre', '__init__', 'clear')]
+            run.check(
+                attr in cleared or bool(flow_resets),
+                readers[0].qualname,
+                'Tokeniser.%s, written by %s and read by the flow parser, is reset before a flow route is parsed' % (attr, short(static_writers[0].qualname)),
+                readers[0].loc(),
+                '%s reads tokeniser.%s, which only %s writes and nothing resets: whether a flow component is accepted depends on the family '
+                'of the last static route parsed on the same tokeniser' % (short(readers[0].qualname), attr, ', '.join(short(f.qualname) for f in static_writers[:3])),
+            )
+        if n9 < 1:
+            run.cannot('no tokeniser state shared between the static and the flow parsers found')
+
     # ------------------------------------------------------------------ R6 the family of the prefix is recorded for what follows
     run.rule(
         'C18.R6',
